@@ -218,6 +218,20 @@ class Server:
             if m == "event_then_500":
                 return httpx.Response(500, content=b"late failure")
             raise httpx.ReadError("connection reset after the request was handled", request=request)
+        if m in ("202_then_malformed_event", "malformed_event_then_202"):
+            # what arrives on the event stream under the request's id is not a message (neither result nor error): the
+            # request has not been answered - it still has to end in exactly one terminal message
+            bad = sse_event(None if self.bare else "message", json.dumps({"jsonrpc": "2.0", "id": rid}), self.framing)
+            if m == "malformed_event_then_202":
+                self.stream.feed(bad)
+                await asyncio.sleep(d)
+                return httpx.Response(202)
+
+            async def later_bad():
+                await asyncio.sleep(d)
+                self.stream.feed(bad)
+            asyncio.create_task(later_bad(), name="vf-sse-later")
+            return httpx.Response(202)
         if m == "202_silence":
             return httpx.Response(202)
         if m == "202_then_stream_end":
@@ -276,7 +290,8 @@ REQUEST_MODES = ["200_body", "200_error_body", "202_then_event", "event_then_202
                  "status_404_json", "status_400_jsonrpc", "exception", "read_timeout", "200_garbage",
                  "200_json_object_nonrpc", "200_json_array_nonrpc", "400_nullid_error",
                  "server_request_same_id_then_200_body", "server_request_same_id_then_202_event",
-                 "event_then_500", "event_then_exception", "event_note_then_202", "event_note_later_then_202"]   # (event + 200 body = a server answering twice: not a stated mode)
+                 "event_then_500", "event_then_exception", "event_note_then_202", "event_note_later_then_202",
+                 "202_then_malformed_event", "malformed_event_then_202"]   # (event + 200 body = a server answering twice: not a stated mode)
 IDS = [1, 0, "abc", "123", 2**53 + 1, "", -1]
 
 
@@ -456,9 +471,9 @@ async def scenario(case: Dict[str, Any], srv: Server, obs: Dict[str, Any]):
                     if case.get("leave_after") is not None:
                         await asyncio.sleep(case["leave_after"])     # the application leaves while the request is pending
                         break
-                    await asyncio.sleep(TIMEOUT + 1.5 if req["mode"] in ("202_silence", "202_then_event", "event_then_202",
+                    await asyncio.sleep(TIMEOUT + 1.5 if req["mode"] in ("202_silence", "202_then_malformed_event", "malformed_event_then_202", "202_then_event", "event_then_202",
                                                                          "202_then_event_error", "event_then_202_error")
-                                        and (req["mode"] == "202_silence" or req.get("delay", 0) > 1) else 1.5)
+                                        and (req["mode"] in ("202_silence", "202_then_malformed_event", "malformed_event_then_202") or req.get("delay", 0) > 1) else 1.5)
                 if case.get("server_msgs"):
                     await asyncio.sleep(2.0 + max(0.0, case.get("server_msgs_at", 0.5) - 0.5))
                 if case.get("answer_server_requests"):
